@@ -140,10 +140,17 @@ impl Frame {
         };
 
         // Read the payload
-        let mut payload: Vec<u8> = vec![0; length as usize];
+        // Read at most the announced number of bytes, growing the buffer as they arrive, so that the
+        //   memory used is bounded by what the peer actually sends rather than by what it claims
+        let mut payload: Vec<u8> = Vec::new();
         stream
-            .read_exact(&mut payload)
+            .by_ref()
+            .take(length)
+            .read_to_end(&mut payload)
             .map_err(|_| WebsocketError::ReadError)?;
+        if payload.len() as u64 != length {
+            return Err(WebsocketError::ReadError);
+        }
 
         // Unmask the payload
         payload
